@@ -74,7 +74,7 @@ func patchBadger(dir string) {
 		fmt.Fprintln(os.Stderr, "autoyield: DB.Update of badger does not have the expected shape")
 		os.Exit(1)
 	}
-	patched := strings.Replace(string(src), old, "\tif err := fn(txn); err != nil {\n\t\treturn err\n\t}\n\tif h := VerifHook; h != nil {\n\t\th(\"badger.commit\", \"\")\n\t}\n\n\treturn txn.Commit()\n}", 1)
+	patched := strings.Replace(string(src), old, "\tif err := fn(txn); err != nil {\n\t\treturn err\n\t}\n\tif h := VerifHook; h != nil {\n\t\th(\"badger.commit\", \"\")\n\t}\n\tif f := VerifCommitFault; f != nil {\n\t\tif err := f(); err != nil {\n\t\t\treturn err\n\t\t}\n\t}\n\n\treturn txn.Commit()\n}", 1)
 	// and both View and Update yield before the transaction is created
 	for _, fn := range []string{"View", "Update"} {
 		head := "func (db *DB) " + fn + "(fn func(txn *Txn) error) error {\n"
@@ -84,7 +84,7 @@ func patchBadger(dir string) {
 		}
 		patched = strings.Replace(patched, head, head+"\tif h := VerifHook; h != nil {\n\t\th(\"badger."+strings.ToLower(fn)+"\", \"\")\n\t}\n", 1)
 	}
-	hook := "package badger\n\n// VerifHook, when set, is called by DB.Update between the user's function and\n// the commit (deterministic simulator only; this file exists only in the\n// scratch copy the simulator is built from).\nvar VerifHook func(point, arg string)\n"
+	hook := "package badger\n\n// VerifHook, when set, is called by DB.Update between the user's function and\n// the commit (deterministic simulator only; this file exists only in the\n// scratch copy the simulator is built from).\nvar VerifHook func(point, arg string)\n\n// VerifCommitFault, when set, is asked before every commit of DB.Update; a\n// non-nil error is returned to the caller instead of committing (a disk\n// that refuses the write).\nvar VerifCommitFault func() error\n"
 	if err := os.WriteFile(path, []byte(patched), 0o644); err == nil {
 		err = os.WriteFile(filepath.Join(dir, "verif_hook.go"), []byte(hook), 0o644)
 	}
